@@ -150,6 +150,7 @@ type Sim struct {
 	mutexes  [16]mutexMirror
 	gids     [512]gidEntry
 	counters [NumCounters]int
+	lockWaiters []string // request tasks that waited for a gated mutex
 	sanity   []string
 	idleAdv  time.Duration
 	start    time.Time
@@ -337,6 +338,12 @@ func (s *Sim) LockGate(addr any) {
 	if sl == nil {
 		return
 	}
+	if len(sl.Name) > 1 && sl.Name[0] == 'r' && sl.Name[1] >= '0' && sl.Name[1] <= '9' && !(mutexEnabler{s, addr}).Enabled(0) {
+		// a task that serves a request is about to wait for a mutex that a
+		// registration holds (larking's readers are lock-free: registration
+		// runs beside serving, not in front of it)
+		s.noteWaitedForLock(sl.Name)
+	}
 	sl.Yield("lock", mutexEnabler{s, addr}, 0)
 	if s.aborting() && !(mutexEnabler{s, addr}).Enabled(0) {
 		// Teardown of a run in which the mutex was never released (a leaked
@@ -346,6 +353,18 @@ func (s *Sim) LockGate(addr any) {
 		runtime.Goexit()
 	}
 }
+//go:norace
+func (s *Sim) noteWaitedForLock(name string) {
+	if len(s.lockWaiters) < 8 {
+		s.lockWaiters = append(s.lockWaiters, name)
+	}
+}
+
+// LockWaiters lists request tasks that had to wait for a gated mutex.
+//
+//go:norace
+func (s *Sim) LockWaiters() []string { return s.lockWaiters }
+
 func (s *Sim) Locked(addr any)   { s.setHeld(addr, true) }
 func (s *Sim) Unlocked(addr any) { s.setHeld(addr, false) }
 
